@@ -437,6 +437,20 @@ impl NetCfg {
         net
     }
 
+    /// The "snapshot" idiom (`Network` is not `Clone`): a fresh network that takes over the
+    /// public fields of `src` and is configured through the setters. It computes what `src`
+    /// computes; anything the library caches outside `layers` while layers are *added* is
+    /// absent here.
+    pub fn snapshot_of(&self, src: &network::Network) -> network::Network {
+        let mut s = network::Network::new(self.input.to_lib());
+        s.layers = src.layers.clone();
+        s.connect = src.connect.clone();
+        s.loopbacks = src.loopbacks.clone();
+        s.set_accumulation(self.skip_acc.to_lib(), self.loop_acc.to_lib());
+        s.set_objective(self.objective.to_lib(), self.clamp);
+        s
+    }
+
     pub fn input_tensor(&self, flat: &[f32]) -> tensor::Tensor {
         let t = tensor::Tensor::single(flat.to_vec());
         match self.input {
